@@ -197,6 +197,9 @@ func TestVerifRace(t *testing.T) {
 		{{"READONLY", "no"}, {"SET", "k", "ro", "POINT", "2", "2"}},
 		// a lock-free script (pure Lua between its calls) next to writes that run a channel's WHEREEVAL filter
 		{{"EVALNA", "local x = 0 for i = 1, 200000 do x = x + (i % 7) end return tostring(x)", "0"}, {"SET", "k", "wf", "FIELD", "f", "1", "POINT", "1", "1"}},
+		// two lock-free scripts, one of them with a deadline: the interpreter goes back to the pool with the other's next in line
+		{{"TIMEOUT", "5", "EVALNA", "local x = 0 for i = 1, 2000 do x = x + (i % 7) end return tostring(x)", "0"}, {"EVALNA", "local x = 0 for i = 1, 2000 do x = x + (i % 5) end return tostring(x)", "0"}},
+		{{"TIMEOUT", "5", "EVALNA", "return tile38.call('GET','k','a')", "0"}, {"TIMEOUT", "5", "EVALNA", "return tile38.call('GET','k','b')", "0"}},
 		// readers share Server.mu: scratch state shared between two read commands
 		{{"SCAN", "k", "LIMIT", "2"}, {"SCAN", "k", "CURSOR", "1", "LIMIT", "2", "DESC"}},
 		{{"NEARBY", "k", "LIMIT", "2", "POINT", "1", "1"}, {"WITHIN", "k", "LIMIT", "2", "BOUNDS", "-10", "-10", "10", "10"}},
